@@ -76,7 +76,7 @@ Theorem C09_lockset_refuted : exists a b f, concurrent_allowed a b = true /\ rac
 Proof. exact lockset_refuted. Qed.
 Print Assumptions C09_lockset_refuted.
 
-(* the refutation as an execution: Parse.fast about to write, purge about to read Host.LastSeen of one row *)
+(* the refutation as an execution: one Close about to write, another about to read Session.closed *)
 Theorem C09_race_state_reachable :
   reachable op template race_init race_witness /\ race_stateb race_witness 0 1 = true.
 Proof. exact race_state_reachable. Qed.
@@ -131,7 +131,7 @@ Proof. exact model_races_are_exactly_the_known_ones. Qed.
 Print Assumptions C09_model_races_are_known.
 
 Example C09_known_race_instance :
-  tops_ok race_init /\ known_C09 (race_key ParseFast Purge FHostLastSeen) = true.
+  tops_ok race_init /\ known_C09 (race_key SessClose SessClose FSessClosed) = true.
 Proof. exact known_race_instance. Qed.
 Print Assumptions C09_known_race_instance.
 
